@@ -15,6 +15,7 @@
 extern struct ec_backend_op_stubs flat_xor_hd_op_stubs;
 #ifdef CELL
 extern int g_bs;          /* ghost-cell model (stub_xor_cell.c): buffers are 1-byte cells = byte g_t of the real buffer */
+extern char *g_cells; extern int g_ncells; extern unsigned g_wmask;
 #define BUFSZ 1
 #define g_t 0
 #else
@@ -73,6 +74,7 @@ void harness(void)
     int nmiss = popc(in_miss);
 #ifdef CELL
     static char cells[N];                                 /* one cell per stripe buffer, reused for every set */
+    g_cells = cells; g_ncells = N; g_wmask = in_miss;      /* the operation may write the missing buffers only (C15) */
     for (int i = 0; i < K; i++) data[i] = &cells[i];
     for (int j = 0; j < M; j++) parity[j] = &cells[K + j];
 #else
